@@ -194,6 +194,48 @@ theorem chain_configs :
       "robinChainConfig",
       "subNetChainConfig"] := ⟨rfl, rfl⟩
 
+/-- Every top-level guard of the verification path (`VerifyTransaction`, the three native checks,
+    `verifyETHTx`, `compareTx`, `EIP155Signer.Sender`, `recoverPlain`), pinned: condition and
+    the last statement of the guarded block. -/
+theorem path_guards :
+    pathGuards = [
+      ("VerifyTransaction", "tx.Type==types.TransactionTypeETHTX", "return verifyETHTx(tx, height)", "return"),
+      ("VerifyTransaction", "nil!=err", "return err", "return"),
+      ("VerifyTransaction", "nil!=err", "return err", "return"),
+      ("VerifyTransaction", "nil!=err", "return err", "return"),
+      ("verifyTxChainId", "tx.ChainId!=expectedChainId", "return ErrChainId", "return"),
+      ("verifyTransactionHash", "tx.Hash!=expectHash", "return ErrHash", "return"),
+      ("verifyTransactionSign", "tx.Sign==nil", "return ErrSign", "return"),
+      ("verifyTransactionSign", "err!=nil", "return ErrSign", "return"),
+      ("verifyTransactionSign", "!pk.Verify(hashByte,tx.Sign)", "return ErrSign", "return"),
+      ("verifyTransactionSign", "tx.Source!=expectAddr", "return ErrSign", "return"),
+      ("verifyETHTx", "tx==nil", "return ErrNil", "return"),
+      ("verifyETHTx", "err!=nil", "return ErrIllegal", "return"),
+      ("verifyETHTx", "err!=nil||!bytes.Equal(canonicalTx,encodedTx)", "return ErrIllegal", "return"),
+      ("verifyETHTx", "err!=nil", "return ErrIllegal", "return"),
+      ("verifyETHTx", "!compareTx(tx,expectedTx)", "return ErrIllegal", "return"),
+      ("compareTx", "tx==nil||expectedTx==nil", "return false", "return"),
+      ("compareTx", "tx.Source!=expectedTx.Source||tx.Target!=expectedTx.Target||tx.Type!=expectedTx.Type||tx.ExtraData!=expectedTx.ExtraData", "return false", "return"),
+      ("compareTx", "tx.Nonce!=expectedTx.Nonce||tx.ChainId!=expectedTx.ChainId||tx.Data!=expectedTx.Data||tx.Hash!=expectedTx.Hash", "return false", "return"),
+      ("Sender", "!tx.Protected()", "return HomesteadSigner{}.Sender(tx)", "return"),
+      ("Sender", "tx.ChainId().Cmp(s.chainId)!=0", "return common.Address{}, ErrInvalidChainId", "return"),
+      ("recoverPlain", "Vb.BitLen()>8", "return common.Address{}, ErrInvalidSig", "return"),
+      ("recoverPlain", "!crypto.ValidateSignatureValues(V,R,S,homestead)", "return common.Address{}, ErrInvalidSig", "return"),
+      ("recoverPlain", "err!=nil", "return common.Address{}, err", "return"),
+      ("recoverPlain", "len(pub)==0||pub[0]!=4", "return common.Address{}, errors.New(\"invalid public key\")", "return")] := rfl
+
+/-- … and each of them ends by *returning*: no error branch logs and falls through (the model's
+    `none`/error results stop the evaluation in exactly the same places). -/
+theorem every_guard_returns : pathGuards.all (fun g => g.2.2.2 == "return") = true := by decide
+
+/-- chain id by height: `ChainId` asks `IsProposal001(height)` = `height >= Proposal001Block`
+    (so the current id is in force AT the fork block), `GetChainId` prefers a non-empty
+    `Genesis.ChainId` (the model's `chainIdStr` / `ethChainId`). -/
+theorem chain_id_shape :
+    chainIdBody = ["if IsProposal001(height) { return LocalChainConfig.ChainId } else { return LocalChainConfig.OriginalChainId }"] ∧
+    getChainIdBody = ["var chainIdStr string", "if nil != Genesis && 0 != len(Genesis.ChainId) { chainIdStr = Genesis.ChainId } else { chainIdStr = ChainId(height) }", "chainId, _ := big.NewInt(0).SetString(chainIdStr, 10)", "return chainId"] ∧
+    isProposal001Body = ["return isForked(LocalChainConfig.Proposal001Block, height)"] ∧ isForkedBody = ["return height >= base"] := ⟨rfl, rfl, rfl, rfl⟩
+
 theorem signer_call_order :
     eip155SenderCalls = ["tx.Protected", "HomesteadSigner{}.Sender", "tx.ChainId().Cmp", "tx.ChainId",
       "new(big.Int).Sub", "new", "V.Sub", "recoverPlain", "s.Hash"] ∧
